@@ -709,6 +709,9 @@ namespace fixedmath
     else if( ulo < (1<<16) )
       {
       int lshbits{ std::max(cxx20::countl_zero( uhi ) - 30,0) >> 1 };
+      //for uhi in range 2^29..2^30 shift by 2 bits lets sum of squares exceed 64 bits
+      if( uhi >= (1ull<<29) )
+        lshbits = 1;
       uhi <<= lshbits;
       ulo <<= lshbits;
       return as_fixed( sqrt( as_fixed( (uhi*uhi+ulo*ulo)>>prec_) ).v  >> lshbits);
